@@ -103,6 +103,12 @@ def _(): rep('internal/context_v2/context.go','''func (ctx *CompilerContext) Add
 		panic(fmt.Sprintf("cannot add nil module for %q", importPath))
 	}
 ''')
+@m('m15-5','C15')
+def _(): rep('internal/context_v2/context.go','''func (ctx *CompilerContext) HasModule(importPath string) bool {
+	ctx.mu.RLock()
+	defer ctx.mu.RUnlock()
+''','''func (ctx *CompilerContext) HasModule(importPath string) bool {
+''')
 if __name__=='__main__':
     if sys.argv[1]=='list':
         for k,(c,_) in M.items(): print(k,c)
